@@ -295,6 +295,14 @@ func c18Lists(p *chk.Prog, r *chk.Report) {
 			// res is a copy of the argument
 			ok = len(sg.FindPat("copy(R, T)", chk.H("R", sc.IsObj(res)), chk.H("T", isParamIdx(sc, 0)))) == 1 &&
 				definedBy(sg, "make([]T, len(X))", chk.H("X", isParamIdx(sc, 0)))(call.Slice)
+			// the other copy idioms: appended to a fresh (empty) slice, slices.Clone
+			if !ok {
+				for _, pat := range []string{"append(make([]T, 0, N), X...)", "append(make([]T, 0), X...)", "append([]T{}, X...)", "append([]T(nil), X...)", "slices.Clone(X)"} {
+					if definedBy(sg, pat, chk.H("X", isParamIdx(sc, 0)))(call.Slice) && len(assignsTo(sc, res)) == 1 {
+						ok = true
+					}
+				}
+			}
 			for _, rt := range sg.Returns() {
 				rr := retResults(rt)
 				if len(rr) != 1 || sc.ObjOf(rr[0]) != res {
